@@ -729,7 +729,8 @@ func (p *parser) aliasClause() (string, []string, error) {
 			return "", nil, err
 		}
 		alias = a
-	} else if t := p.peek(); (t.k == tIdent && !reservedNoAlias[t.s]) || t.k == tQIdent {
+	} else if t := p.peek(); (t.k == tIdent && (!reservedNoAlias[t.s] || (t.s == "values" && !p.peekN(1).isOp("(")))) || t.k == tQIdent {
+		// VALUES is non-reserved in Postgres: `(…) values` is a legal alias
 		p.i++
 		alias = t.s
 	}
